@@ -777,7 +777,7 @@ package dbft
 //@   ensures [C14,C10] @duration implies(notWatchOnly() && aview() && self.lastBlockTime != tzero() && 0 <= self.rttEstimates.avg && self.rttEstimates.avg <= 2305843009213693952 && self.lastBlockIndex < 4294967295,
 //@        gTimerD == ite(self.lastBlockIndex + 1 == self.BlockIndex,
 //@              max(0, timeoutBase(view) - (gClock - self.lastBlockTime) - self.rttEstimates.avg / 2), timeoutBase(view)))
-//@   ensures @arms gTimerArms >= old(gTimerArms) && gBroadcasts >= old(gBroadcasts)
+//@   ensures @arms gTimerArms >= old(gTimerArms) && gBroadcasts >= old(gBroadcasts) && gInbound >= old(gInbound)
 //@   ensures [C05] @cachePurged implies(view == 0, cachePurged())
 //@   ensures [C05] @cacheKeptPurged implies(old(cachePurged()), cachePurged())
 // C05: payloads received early for the height being entered are taken into account (each goes through OnReceive)
